@@ -7,6 +7,9 @@
 (* life cycle                                                               *)
 (*   notstarted -> startup -> running -> shutdown -> gone   (orderly)       *)
 (*   any of these -> dead                                   (crash / kill)  *)
+(* Once it is dead or gone, ANOTHER process may create a guard for the same  *)
+(* path (a new incarnation, inc > 1): dead | gone -> startup -> ...; if that  *)
+(* creation is refused the previous state is restored.                       *)
 (* observers asking for a verdict, and cleaners asking for ownership.  Every *)
 (* answer is possible (the layer is as permissive as the statement); an      *)
 (* answer the statement forbids is recorded in `bad`, and the named          *)
@@ -20,6 +23,8 @@ CONSTANTS Monitors, Cleaners, Excused
 VARIABLES
     gst,        \* life cycle state of the guard's PROCESS and object
     gdeadphase, \* phase in which it died ("none" while alive)
+    inc,        \* incarnation of the guard (1 = the first process that created it)
+    prev,       \* <<gst, gdeadphase, touched, begun>> of the previous incarnation while a new one is being created
     mq,         \* per monitor: the query in progress
     cl,         \* per cleaner: [st, quiet, alone, epoch, chg, fault]
     epoch,      \* counts cleaner events (to know whether a query ran undisturbed)
@@ -27,7 +32,7 @@ VARIABLES
     begun,      \* some cleaner that owns the files has begun to remove them (its drop has started)
     bad
 
-pvars == <<gst, gdeadphase, mq, cl, epoch, touched, begun, bad>>
+pvars == <<gst, gdeadphase, inc, prev, mq, cl, epoch, touched, begun, bad>>
 
 Phase == CASE gst \in {"notstarted", "startup"} -> "startup"
            [] gst = "running" -> "running"
@@ -37,17 +42,17 @@ Phase == CASE gst \in {"notstarted", "startup"} -> "startup"
 NoQuery == [on |-> FALSE, quiet |-> FALSE, deadrun |-> FALSE, epoch |-> 0]
 \* chg = the token files this cleaner has changed (removed / created / chmod-ed / written) during its attempt;
 \* fault = an operating-system failure is injected into this attempt (any error may then be returned)
-NoCleaner == [st |-> "idle", quiet |-> FALSE, alone |-> FALSE, epoch |-> 0, chg |-> {}, fault |-> FALSE]
+NoCleaner == [st |-> "idle", quiet |-> FALSE, alone |-> FALSE, epoch |-> 0, chg |-> {}, fault |-> FALSE, inc |-> 0]
 
 PInit ==
-    /\ gst = "notstarted" /\ gdeadphase = "none"
+    /\ gst = "notstarted" /\ gdeadphase = "none" /\ inc = 1 /\ prev = <<"notstarted", "none", FALSE, FALSE>>
     /\ mq = [m \in Monitors |-> NoQuery]
     /\ cl = [c \in Cleaners |-> NoCleaner]
     /\ epoch = 0 /\ touched = FALSE /\ begun = FALSE
     /\ bad = {}
 
 PReset ==
-    /\ gst' = "notstarted" /\ gdeadphase' = "none"
+    /\ gst' = "notstarted" /\ gdeadphase' = "none" /\ inc' = 1 /\ prev' = <<"notstarted", "none", FALSE, FALSE>>
     /\ mq' = [m \in Monitors |-> NoQuery]
     /\ cl' = [c \in Cleaners |-> NoCleaner]
     /\ epoch' = 0 /\ touched' = FALSE /\ begun' = FALSE
@@ -59,18 +64,34 @@ Record(b, pos) ==
 
 \* ---- the guard
 GuardEvent(ev) ==
-    /\ CASE ev = "create_begin" -> gst = "notstarted" /\ gst' = "startup"
-         [] ev = "created" -> gst = "startup" /\ gst' = "running"
-         [] ev = "drop_begin" -> gst = "running" /\ gst' = "shutdown"
-         [] ev = "dropped" -> gst = "shutdown" /\ gst' = "gone"
-         [] OTHER -> FALSE
-    /\ UNCHANGED <<gdeadphase, mq, cl, epoch, touched, begun, bad>>
+    CASE ev = "create_begin" /\ gst = "notstarted" ->
+            /\ gst' = "startup"
+            /\ UNCHANGED <<gdeadphase, inc, prev, mq, cl, epoch, touched, begun, bad>>
+      [] ev = "create_begin" /\ gst \in {"dead", "gone"} ->     \* a new incarnation (another process, same path)
+            /\ gst' = "startup" /\ gdeadphase' = "none" /\ inc' = inc + 1 /\ prev' = <<gst, gdeadphase, touched, begun>>
+            /\ touched' = FALSE /\ begun' = FALSE
+            /\ epoch' = epoch + 1                                 \* queries / attempts in progress are disturbed
+            /\ UNCHANGED <<mq, cl, bad>>
+      [] ev = "create_failed" /\ gst = "startup" ->             \* the creation was refused: nothing has changed
+            /\ gst' = prev[1] /\ gdeadphase' = prev[2] /\ touched' = (touched \/ prev[3]) /\ begun' = (begun \/ prev[4])
+            /\ inc' = inc - 1
+            /\ UNCHANGED <<prev, mq, cl, epoch, bad>>
+      [] ev = "created" /\ gst = "startup" ->
+            /\ gst' = "running"
+            /\ UNCHANGED <<gdeadphase, inc, prev, mq, cl, epoch, touched, begun, bad>>
+      [] ev = "drop_begin" /\ gst = "running" ->
+            /\ gst' = "shutdown"
+            /\ UNCHANGED <<gdeadphase, inc, prev, mq, cl, epoch, touched, begun, bad>>
+      [] ev = "dropped" /\ gst = "shutdown" ->
+            /\ gst' = "gone"
+            /\ UNCHANGED <<gdeadphase, inc, prev, mq, cl, epoch, touched, begun, bad>>
+      [] OTHER -> FALSE
 
 GuardCrash ==
     /\ gst # "dead"
     /\ gdeadphase' = Phase
     /\ gst' = "dead"
-    /\ UNCHANGED <<mq, cl, epoch, touched, begun, bad>>
+    /\ UNCHANGED <<inc, prev, mq, cl, epoch, touched, begun, bad>>
 
 \* ---- observers
 Active(c) == cl[c].st \in {"trying", "owner", "dropping"}
@@ -79,13 +100,15 @@ QueryStart(m) ==
     /\ mq' = [mq EXCEPT ![m] = [on |-> TRUE, epoch |-> epoch,
                                 quiet |-> gst = "dead" /\ ~touched /\ \A c \in Cleaners : ~Active(c),
                                 deadrun |-> gst = "dead" /\ gdeadphase = "running"]]
-    /\ UNCHANGED <<gst, gdeadphase, cl, epoch, touched, begun, bad>>
+    /\ UNCHANGED <<gst, gdeadphase, inc, prev, cl, epoch, touched, begun, bad>>
 
 \* any verdict may be shown; lv = "pm" | "cal" | "node"
 Verdict(m, lv, v, pos) ==
     /\ mq[m].on
     /\ LET quiet == mq[m].quiet /\ mq[m].epoch = epoch
-           b1 == IF v = "Dead" /\ gst # "dead" THEN {<<"falsedead", lv, Phase>>} ELSE {}
+           \* (while a later incarnation is being created the statement does not say whose state is shown)
+           b1 == IF v = "Dead" /\ gst # "dead" /\ ~(inc > 1 /\ gst = "startup")
+                 THEN {<<"falsedead", lv, Phase>>} ELSE {}
            b2 == IF quiet /\ (v = "Alive"
                               \/ (lv # "pm" /\ v \notin {"Dead", "DoesNotExist"})
                               \/ (gdeadphase = "running" /\ v # "Dead"))
@@ -95,7 +118,7 @@ Verdict(m, lv, v, pos) ==
            b3 == IF v = "DoesNotExist" /\ mq[m].deadrun /\ ~begun THEN {<<"vanished", lv>>} ELSE {}
        IN Record(b1 \cup b2 \cup b3, pos)
     /\ mq' = [mq EXCEPT ![m] = NoQuery]
-    /\ UNCHANGED <<gst, gdeadphase, cl, epoch, touched, begun>>
+    /\ UNCHANGED <<gst, gdeadphase, inc, prev, cl, epoch, touched, begun>>
 
 \* ---- cleaners
 Terminal == {"idle", "failed", "done", "crashed", "crashed_owner"}
@@ -104,12 +127,12 @@ Terminal == {"idle", "failed", "done", "crashed", "crashed_owner"}
 \* such an attempt returns (quiet / alone are not claimed), only that a refused attempt changes nothing
 CleanerStart(c, fault) ==
     /\ cl[c].st = "idle"
-    /\ cl' = [cl EXCEPT ![c] = [st |-> "trying", epoch |-> epoch + 1, chg |-> {}, fault |-> fault,
+    /\ cl' = [cl EXCEPT ![c] = [st |-> "trying", epoch |-> epoch + 1, chg |-> {}, fault |-> fault, inc |-> inc,
                                 quiet |-> ~fault /\ gst = "dead" /\ gdeadphase = "running",
                                 alone |-> ~fault /\ gst = "dead" /\ gdeadphase = "running"
                                           /\ \A o \in Cleaners \ {c} : cl[o].st \in Terminal]]
     /\ epoch' = epoch + 1
-    /\ UNCHANGED <<gst, gdeadphase, mq, touched, begun, bad>>
+    /\ UNCHANGED <<gst, gdeadphase, inc, prev, mq, touched, begun, bad>>
 
 \* a system call of a cleaner on a token file (f), as recorded by the shim: what a cleaner that does not (yet)
 \* own the files changes is remembered until its result is known
@@ -117,7 +140,7 @@ StateChanging(op, obs) == (op \in {"unlink", "create", "chmod"} /\ obs = "ok") \
 CleanerSys(c, op, f, obs) ==
     /\ cl' = IF cl[c].st = "trying" /\ StateChanging(op, obs) /\ f \in {"context", "state", "owner_lock"}
              THEN [cl EXCEPT ![c].chg = @ \cup {f}] ELSE cl
-    /\ UNCHANGED <<gst, gdeadphase, mq, epoch, touched, begun, bad>>
+    /\ UNCHANGED <<gst, gdeadphase, inc, prev, mq, epoch, touched, begun, bad>>
 
 \* any result may be returned; left = which files are still linked ("---" = none), as seen by the controller
 \* lockop = the call by which the owner lock was taken ("lock" = F_SETLK, "lockw" = F_SETLKW), linked = the
@@ -127,11 +150,17 @@ CleanerResult(c, r, left, lockop, pos) ==
     /\ LET others == {o \in Cleaners \ {c} : cl[o].st \in {"owner", "dropping", "done"}}
            how == IF lockop # "lock" THEN "second_owner_blocking_lock"
                   ELSE IF left \in {"cso", "-so", "c-o", "--o"} THEN "second_owner_owner_lock_linked" ELSE "second_owner"
-           b1 == IF r = "Ok" /\ gst # "dead" THEN {<<"reclaim", Phase>>} ELSE {}
-           b2 == IF r = "Ok" /\ others # {} THEN {<<"exclusive", how>>} ELSE {}
-           b3 == IF cl[c].alone /\ cl[c].epoch = epoch /\ ~(r = "Ok" \/ (r = "DoesNotExist" /\ left = "---"))
+           \* ownership while the guard's process runs; "reincarnated": the process that runs is a later incarnation
+           \* (the cleaner started on the remains of an earlier one)
+           b1 == IF r = "Ok" /\ gst # "dead"
+                 THEN (IF inc = 1 THEN {<<"reclaim", Phase>>} ELSE {<<"reclaim", Phase, "reincarnated">>}) ELSE {}
+           \* same: the guard is still the incarnation on whose remains this cleaner started (otherwise the claims
+           \* about what it is told are void, and a success is the reclaim from the later incarnation, b1)
+           same == cl[c].inc = inc
+           b2 == IF r = "Ok" /\ others # {} /\ same THEN {<<"exclusive", how>>} ELSE {}
+           b3 == IF cl[c].alone /\ same /\ cl[c].epoch = epoch /\ ~(r = "Ok" \/ (r = "DoesNotExist" /\ left = "---"))
                  THEN {<<"unrecoverable", r, left>>} ELSE {}
-           b4 == IF cl[c].quiet /\ r \notin {"Ok", "OwnedByAnother", "BeingCleanedUp", "DoesNotExist"}
+           b4 == IF cl[c].quiet /\ same /\ r \notin {"Ok", "OwnedByAnother", "BeingCleanedUp", "DoesNotExist"}
                  THEN {<<"loser", r>>} ELSE {}
            \* "exactly one performs the cleanup and the others are told so": whoever is refused has changed nothing
            b5 == IF r # "Ok" /\ cl[c].chg # {} THEN {<<"refused", r>>} ELSE {}
@@ -139,7 +168,7 @@ CleanerResult(c, r, left, lockop, pos) ==
     /\ cl' = [cl EXCEPT ![c].st = IF r = "Ok" THEN "owner" ELSE "failed", ![c].chg = {}]
     /\ touched' = (touched \/ r = "Ok")
     /\ epoch' = epoch + 1
-    /\ UNCHANGED <<gst, gdeadphase, mq, begun>>
+    /\ UNCHANGED <<gst, gdeadphase, inc, prev, mq, begun>>
 
 CleanerEvent(c, ev) ==
     /\ CASE ev = "cdrop_begin" -> cl[c].st = "owner" /\ cl' = [cl EXCEPT ![c].st = "dropping"]
@@ -147,13 +176,13 @@ CleanerEvent(c, ev) ==
          [] OTHER -> FALSE
     /\ epoch' = epoch + 1
     /\ begun' = (begun \/ ev = "cdrop_begin")
-    /\ UNCHANGED <<gst, gdeadphase, mq, touched, bad>>
+    /\ UNCHANGED <<gst, gdeadphase, inc, prev, mq, touched, bad>>
 
 CleanerCrash(c) ==
     /\ cl[c].st \in {"trying", "owner", "dropping"}
     /\ cl' = [cl EXCEPT ![c].st = IF cl[c].st = "trying" THEN "crashed" ELSE "crashed_owner"]
     /\ epoch' = epoch + 1
-    /\ UNCHANGED <<gst, gdeadphase, mq, touched, begun, bad>>
+    /\ UNCHANGED <<gst, gdeadphase, inc, prev, mq, touched, begun, bad>>
 
 \* ---- the clauses of the property
 Kind(k) == {s \in bad : s[1] = k}
